@@ -168,7 +168,19 @@ fn run_inner(case: &Case, st: &mut Stats) -> Outcome {
     let mut a = new_party(case);
     let mut b = new_party(case);
     let mut poisoned = false;
-    for act in &case.acts {
+    for (idx, act) in case.acts.iter().enumerate() {
+        // The hinter skips the evaluation (and the reset) when the text equals the text it saw last,
+        // and Enter clears that memory: an editor optimisation that would make a session that got
+        // one more Enter differ for reasons that have nothing to do with the line's content. Typed
+        // text gets a distinct run of trailing blanks per action so that it is always evaluated.
+        let unique_keys;
+        let act = match act {
+            Act::Keys(l) => {
+                unique_keys = Act::Keys(format!("{}{}", l.trim_end(), " ".repeat(idx + 1)));
+                &unique_keys
+            }
+            other => other,
+        };
         let kind = match act {
             Act::Enter(l) if l.trim().starts_with('/') => l.trim().to_string(),
             Act::Enter(_) => "enter".to_string(),
@@ -178,32 +190,41 @@ fn run_inner(case: &Case, st: &mut Stats) -> Outcome {
         st.event(&kind, 0);
         match act {
             Act::Poison(line) => {
-                // the control never sees this line
-                let before = live_hash(&a);
-                let before_snaps = a.snaps.clone();
-                let ok_before = a.s.with_live(|xs| xs.last_error().is_none());
-                let _ = ok_before;
-                apply(&mut a, "victim", act, st)?;
-                let rejected = a.s.with_live(|xs| xs.last_error().is_some());
-                if !rejected {
-                    // it was accepted after all: from here on the sessions legitimately differ
-                    st.count("probe.poison_line_accepted");
-                    return Ok(());
+                // the control never sees this line. Enter itself has a REPL-level effect that does not
+                // depend on what the line says: in trial mode it freezes the live state into the top
+                // snapshot slot. That is REPL policy, not C10, so the rejected line is only submitted
+                // where the freeze changes nothing: in /repl mode, or when the live state already
+                // renders like the top snapshot.
+                if a.trial && a.snaps.last().copied() != Some(live_hash(&a)) {
+                    st.count("probe.poison_skipped_live_differs_from_top_snapshot");
+                    continue;
                 }
-                // built-and-failed-at-run-time lines keep their effects; only lines that die while
-                // being built are required to leave no trace
-                let built = {
-                    let mut c = Xstate::boot().unwrap();
+                // only a line that dies while being built is required to leave no trace (one that
+                // builds keeps its effects, also when it then fails at run time). Whether this line
+                // builds is decided on a copy of the victim's own live state, where the session's
+                // definitions are known.
+                let builds = a.s.with_live(|xs| {
+                    let mut c = xs.clone();
+                    // the same budget the line gets in the session (apply re-arms it before Enter)
                     c.set_insn_limit(Some(3000)).unwrap();
                     c.compile(line).is_ok()
-                };
-                if built {
-                    st.count("probe.poison_line_failed_at_run");
+                });
+                apply(&mut a, "victim", act, st)?;
+                if builds {
+                    // accepted (or failed at run time): from here on the sessions legitimately differ
+                    st.count("probe.poison_line_was_built");
                     return Ok(());
                 }
                 st.count("fault.rejected_repl_line");
                 poisoned = true;
-                let _ = (before, before_snaps);
+            }
+            Act::Enter(l) if l.trim() == "/rollback" && a.trial && a.snaps.len() <= 1 => {
+                // /rollback in trial mode with one snapshot left would take away the state that typed
+                // text is reset from: from then on typing changes the live state for good. That is a
+                // REPL policy question, not clone isolation (C03) and not C10, and everything after it
+                // depends on the editor's cache of the last typed text; the search stays out of it.
+                st.count("probe.rollback_skipped_last_trial_snapshot");
+                continue;
             }
             _ => {
                 apply(&mut a, "victim", act, st)?;
